@@ -205,6 +205,32 @@ def check(case):
     s = case["a"]
     ra = D.build_ref(s)
     a = D.build_impl(s)
+    r = _judge(a, ra, case, first=True)
+    if not r["ok"] or r.get("unspecified") or case["mode"] != "label" or not ra.ndim:
+        return r
+    # ... and once more on the SAME array after its axes were relabelled in place (first two labels of every axis swapped, through
+    # set_axis): look-ups must follow the labels the array has now (whatever a first look-up may have remembered)
+    import zlib
+    if zlib.crc32(repr((case["ix"], case["sp"])).encode()) % 3:
+        return r
+    labels2 = []
+    for i, (lab, kind) in enumerate(zip(ra.labels, s["kinds"])):
+        l2 = list(lab)
+        if len(l2) >= 2:
+            l2[0], l2[1] = l2[1], l2[0]
+            res = call(a.set_axis, D.np_labels(l2, kind), axis=i)
+            if isinstance(res, Raised):
+                return bad("a.set_axis({}, axis={}) raised {}".format(l2, i, res), klass="unexpected-exception")
+        labels2.append(l2)
+    ra2 = R.RA(ra.dims, labels2, ra.vals)
+    r2 = _judge(a, ra2, case, first=False)
+    if not r2["ok"]:
+        return bad("after swapping the first two labels of every axis in place (now {}): {}".format(labels2, r2.get("detail")), klass=r2.get("klass", "mismatch"))
+    return r
+
+
+def _judge(a, ra, case, first):
+    s = case["a"]
     before = common.snap(a)
     tol = case.get("tol")
     kd = case.get("keepdims", False)
@@ -225,10 +251,11 @@ def check(case):
     got = call(spell.get, a, case["ix"], case["sp"], s["kinds"], mode=case["mode"], pre=pre, **kw)
     if common.snap(a) != before:
         return bad("operand modified by an indexing read")
-    # the caller re-uses its index objects (same tuple / lists / {dim: index} mapping) for a second read: same answer
-    again = call(spell.get, a, case["ix"], case["sp"], s["kinds"], mode=case["mode"], pre=pre, **kw)
-    if isinstance(again, Raised) != isinstance(got, Raised) or (not isinstance(got, Raised) and common.describe(again) != common.describe(got)):
-        return bad("a second read with the SAME index objects gives {} but the first read gave {}".format(common.describe(again), common.describe(got)))
+    if first:
+        # the caller re-uses its index objects (same tuple / lists / {dim: index} mapping) for a second read: same answer
+        again = call(spell.get, a, case["ix"], case["sp"], s["kinds"], mode=case["mode"], pre=pre, **kw)
+        if isinstance(again, Raised) != isinstance(got, Raised) or (not isinstance(got, Raised) and common.describe(again) != common.describe(got)):
+            return bad("a second read with the SAME index objects gives {} but the first read gave {}".format(common.describe(again), common.describe(got)))
     nontriv = any(ix[0] not in ("full", "e") for ix in case["ix"])
     if isinstance(expect, R.RefRaises):
         if isinstance(got, Raised) and issubclass(got.cls, expect.cls):
